@@ -624,3 +624,102 @@ func genUDP(rn *runner, r *vc.Rand, thorough bool) {
 		rn.add(udpLine(utail, evs, ttail, r.Intn(4) == 0, tds, cut, junk, sizes, sc), "udp:random")
 	}
 }
+
+// ---------------------------------------------------------------- SOCKS5 UDP tunnel codec generators
+
+func s5Line(tail string, ds []string, cut int, sizes []int) string {
+	var sb strings.Builder
+	fmt.Fprintf(&sb, "s5 %s ds %d", tail, len(ds))
+	for _, d := range ds {
+		sb.WriteString(" " + d)
+	}
+	fmt.Fprintf(&sb, " cut %d ch %d", cut, len(sizes))
+	for _, s := range sizes {
+		fmt.Fprintf(&sb, " %d", s)
+	}
+	return sb.String()
+}
+
+func genS5(rn *runner, r *vc.Rand, thorough bool) {
+	sets := [][]string{{"61"}, {"61", "6263"}, {"616263", "-", "64", "6566"}, {"-", "61"}}
+	if thorough {
+		sets = append(sets, []string{"6162636465666768", "69", "6a6b6c", "6d6e"}, []string{"z300x5", "7a", "z257x9"})
+	}
+	// (1) coalescing: the whole burst in ONE read, k records per read, every single split position, one-byte
+	// reads — for every cut offset, both tails
+	for _, ds := range sets {
+		total := encLen(ds)
+		for cut := 0; cut <= total; cut++ {
+			if total > 40 && cut%7 != 0 && cut != total {
+				continue
+			}
+			tail := []string{"eof", "err"}[cut%2]
+			rn.add(s5Line(tail, ds, cut, nil), "s5:coalesced-one-read")
+			rn.add(s5Line(tail, ds, cut, ones(cut)), "s5:one-byte-reads")
+			maxSplit := cut
+			if total > 40 {
+				maxSplit = 0
+			}
+			for p := 1; p < maxSplit; p++ {
+				rn.add(s5Line(tail, ds, cut, []int{p}), "s5:split-every-offset")
+			}
+		}
+		// record-aligned reads: j records per read
+		for j := 1; j <= len(ds); j++ {
+			var sizes []int
+			acc, cnt := 0, 0
+			for _, d := range ds {
+				acc += 2 + tokLen(d)
+				cnt++
+				if cnt == j {
+					sizes = append(sizes, acc)
+					acc, cnt = 0, 0
+				}
+			}
+			rn.add(s5Line("eof", ds, uncut, sizes), "s5:records-per-read")
+		}
+	}
+	// (2) what the peer's iocopy.UDP really sends: bursts of many datagrams in one tunnel write, sizes around the
+	// prefix boundaries
+	for _, sz := range []int{255, 256, 257, 1000, 65535} {
+		d := fmt.Sprintf("z%dx%d", sz, sz%11)
+		rn.add(s5Line("eof", []string{"6162", d, "63", d}, uncut, nil), "s5:burst")
+		rn.add(s5Line("err", []string{d, "6162"}, uncut, []int{2 + sz + 1}), "s5:burst")
+		rn.add(s5Line("eof", []string{d, "6162"}, 2+sz+3, []int{1, sz}), "s5:burst")
+	}
+	// (3) random bursts and partitions
+	rounds := 300
+	if thorough {
+		rounds = 8000
+	}
+	for i := 0; i < rounds; i++ {
+		var ds []string
+		n := 1 + r.Intn(6)
+		for j := 0; j < n; j++ {
+			switch r.Intn(12) {
+			case 0:
+				ds = append(ds, "-")
+			case 1:
+				ds = append(ds, fmt.Sprintf("z%dx%d", 250+r.Intn(20), r.Intn(200)))
+			default:
+				ds = append(ds, randHex(r, 1+r.Intn(8)))
+			}
+		}
+		total := encLen(ds)
+		cut := uncut
+		eff := total
+		if r.Intn(3) == 0 {
+			cut = r.Intn(total + 1)
+			eff = cut
+		}
+		var sizes []int
+		switch r.Intn(4) {
+		case 0: // everything in one read
+		case 1:
+			sizes = ones(eff)
+		default:
+			sizes = randSizes(r, eff)
+		}
+		rn.add(s5Line(vc.Pick(r, []string{"eof", "err"}), ds, cut, sizes), "s5:random")
+	}
+}
